@@ -116,68 +116,87 @@ func runC06(c *vlib.Check) {
 				} else {
 					pl = nStruct(plTag, nText(tg("UniqueIdentifier"), "x"), nInt(0x540001, 5))
 				}
-				kids := []*refttlv.Node{nEnum(tg("Operation"), code)}
-				if resp {
-					kids = append(kids, nEnum(tg("ResultStatus"), 0))
+				// item variants: the optional elements that may stand between the fixed ones and the payload (a unique batch item
+				// ID; on a successful response also a result reason and a result message) - for the registered codes and a few others
+				nvar := 1
+				if registered || (code >= 0x30 && code <= 0x32) {
+					nvar = 3
 				}
-				kids = append(kids, pl)
-				tree := message(resp, nStruct(tg("BatchItem"), kids...))
-				bin := refttlv.Generate(tree)
-				for _, e := range c06encs {
-					doc := e.write(tree)
-					c.Eval(append([]byte(e.name), doc...), true)
-					label := fmt.Sprintf("operation 0x%08X %s %s", code, map[bool]string{false: "request", true: "response"}[resp], e.name)
-					rep := map[string]any{"kind": "document", "encoding": e.name, "case": label, "binary_hex": hex.EncodeToString(bin)}
-					if i == 5 && !resp {
-						c.Sample(map[string]any{"case": label, "document": short(string(doc), 300)})
+				for variant := 0; variant < nvar; variant++ {
+					kids := []*refttlv.Node{nEnum(tg("Operation"), code)}
+					if variant == 2 {
+						kids = append(kids, &refttlv.Node{Tag: tg("UniqueBatchItemID"), Type: refttlv.TByteString, S: []byte{0xB1, 0x7E}})
 					}
-					var m any = &kmip.RequestMessage{}
 					if resp {
-						m = &kmip.ResponseMessage{}
-					}
-					var err error
-					if pv, site := vlib.Catch(func() { err = e.unmarshal(append([]byte{}, doc...), m) }); pv != nil {
-						c.Violation("op:decode-panic:"+site, fmt.Sprintf("%s: %v", label, pv), rep)
-						continue
-					}
-					if err != nil {
-						c.Violation("op:decode-error:"+regClass(registered)+":"+e.name+":"+ErrClass(err), fmt.Sprintf("%s: %v", label, err), rep)
-						continue
-					}
-					var got kmip.OperationPayload
-					if resp {
-						got = m.(*kmip.ResponseMessage).BatchItem[0].ResponsePayload
-					} else {
-						got = m.(*kmip.RequestMessage).BatchItem[0].RequestPayload
-					}
-					if got == nil {
-						c.Violation("op:payload-dropped:"+regClass(registered), fmt.Sprintf("%s: payload is nil after decoding", label), rep)
-						continue
-					}
-					if registered {
-						wt := want[0]
-						if resp {
-							wt = want[1]
+						kids = append(kids, nEnum(tg("ResultStatus"), 0))
+						if variant == 2 {
+							kids = append(kids, nEnum(tg("ResultReason"), uint32(kmip.ResultReasonGeneralFailure)))
 						}
-						if reflect.TypeOf(got) != reflect.PointerTo(wt) {
-							c.Violation("op:wrong-payload-type", fmt.Sprintf("%s: decoded to %T, registered type is *%s", label, got, wt.Name()), rep)
+						if variant >= 1 {
+							kids = append(kids, nText(tg("ResultMessage"), "done, with a remark"))
+						}
+					} else if variant == 1 {
+						kids = append(kids, &refttlv.Node{Tag: tg("UniqueBatchItemID"), Type: refttlv.TByteString, S: []byte{1}})
+					}
+					kids = append(kids, pl)
+					tree := message(resp, nStruct(tg("BatchItem"), kids...))
+					bin := refttlv.Generate(tree)
+					for _, e := range c06encs {
+						doc := e.write(tree)
+						c.Eval(append([]byte(e.name), doc...), true)
+						label := fmt.Sprintf("operation 0x%08X %s %s (item variant %d)", code, map[bool]string{false: "request", true: "response"}[resp], e.name, variant)
+						rep := map[string]any{"kind": "document", "encoding": e.name, "case": label, "binary_hex": hex.EncodeToString(bin)}
+						if i == 5 && !resp {
+							c.Sample(map[string]any{"case": label, "document": short(string(doc), 300)})
+						}
+						var m any = &kmip.RequestMessage{}
+						if resp {
+							m = &kmip.ResponseMessage{}
+						}
+						var err error
+						if pv, site := vlib.Catch(func() { err = e.unmarshal(append([]byte{}, doc...), m) }); pv != nil {
+							c.Violation("op:decode-panic:"+site, fmt.Sprintf("%s: %v", label, pv), rep)
 							continue
 						}
-					} else if _, ok := got.(*kmip.UnknownPayload); !ok {
-						c.Violation("op:unknown-not-opaque", fmt.Sprintf("%s: unregistered operation decoded to %T", label, got), rep)
-						continue
-					}
-					if got.Operation() != kmip.Operation(code) {
-						c.Violation("op:payload-reports-other-operation", fmt.Sprintf("%s: payload reports operation 0x%X", label, uint32(got.Operation())), rep)
-						continue
-					}
-					var re []byte
-					if pv, site := vlib.Catch(func() { re = ttlv.MarshalTTLV(m) }); pv != nil {
-						c.Violation("op:reencode-panic:"+site, fmt.Sprintf("%s: %v", label, pv), rep)
-						continue
-					}
-					if !bytes.Equal(re, bin) {
-						c.Violation("op:reencode-differs:"+regClass(registered)+":"+e.name, fmt.Sprintf("%s: re-encoding differs from the original bytes", label), rep)
+						if err != nil {
+							c.Violation("op:decode-error:"+regClass(registered)+":"+e.name+":"+ErrClass(err), fmt.Sprintf("%s: %v", label, err), rep)
+							continue
+						}
+						var got kmip.OperationPayload
+						if resp {
+							got = m.(*kmip.ResponseMessage).BatchItem[0].ResponsePayload
+						} else {
+							got = m.(*kmip.RequestMessage).BatchItem[0].RequestPayload
+						}
+						if got == nil {
+							c.Violation("op:payload-dropped:"+regClass(registered), fmt.Sprintf("%s: payload is nil after decoding", label), rep)
+							continue
+						}
+						if registered {
+							wt := want[0]
+							if resp {
+								wt = want[1]
+							}
+							if reflect.TypeOf(got) != reflect.PointerTo(wt) {
+								c.Violation("op:wrong-payload-type", fmt.Sprintf("%s: decoded to %T, registered type is *%s", label, got, wt.Name()), rep)
+								continue
+							}
+						} else if _, ok := got.(*kmip.UnknownPayload); !ok {
+							c.Violation("op:unknown-not-opaque", fmt.Sprintf("%s: unregistered operation decoded to %T", label, got), rep)
+							continue
+						}
+						if got.Operation() != kmip.Operation(code) {
+							c.Violation("op:payload-reports-other-operation", fmt.Sprintf("%s: payload reports operation 0x%X", label, uint32(got.Operation())), rep)
+							continue
+						}
+						var re []byte
+						if pv, site := vlib.Catch(func() { re = ttlv.MarshalTTLV(m) }); pv != nil {
+							c.Violation("op:reencode-panic:"+site, fmt.Sprintf("%s: %v", label, pv), rep)
+							continue
+						}
+						if !bytes.Equal(re, bin) {
+							c.Violation("op:reencode-differs:"+regClass(registered)+":"+e.name, fmt.Sprintf("%s: re-encoding differs from the original bytes", label), rep)
+						}
 					}
 				}
 			}
